@@ -75,6 +75,14 @@ def generate(seed, tier):
             i, p = rng.choice(cands)
             faults.append({"kind": "io_error", "op": "read", "path": p,
                            "nth": rng.randint(1, 12), "session": i})
+    # K6 on the write side: the n-th raw write to a session's destination fails
+    if rng.random() < 0.15:
+        cands = [(i, s["meta"]["dest"]) for i, s in enumerate(sess)
+                 if s["kind"] in ("convert", "cli_transform") and s["meta"].get("dest")]
+        if cands:
+            i, p = rng.choice(cands)
+            faults.append({"kind": "io_error", "op": "write", "path": p,
+                           "nth": rng.randint(1, 3), "session": i})
     nsteps = 60
     return {"mode": "sessions", "sessions": sess, "faults": faults,
             "schedule": cm.gen_schedule(rng, n, nsteps), "io_seed": rng.randrange(1 << 30),
